@@ -135,6 +135,8 @@ pub struct JobResult {
     /// bytes that appeared on the process's stdout/stderr during the job
     pub stdio_leak: Option<String>,
     pub delivered: Vec<(String, Vec<u8>)>,
+    /// clock reads made by the compiling thread during the compilation (simulated clock)
+    pub clock_reads: u64,
 }
 
 // ---------------------------------------------------------------- panics
@@ -432,6 +434,7 @@ pub fn build_and_run(spec: &JobSpec, fs: &dyn grass_compiler::Fs, logger: &dyn L
     grass_compiler::verif::set_depth_limit(spec.depth_limit);
     grass_compiler::verif::set_paths_fuel(PATHS_FUEL);
     let _ = take_last_panic();
+    crate::seams::set_sim_clock(true);
     let r = catch_unwind(AssertUnwindSafe(|| {
         let res = match &spec.entry {
             Entry::Path(p) => grass_compiler::from_path(p, &opts),
@@ -442,6 +445,7 @@ pub fn build_and_run(spec: &JobSpec, fs: &dyn grass_compiler::Fs, logger: &dyn L
             Err(e) => describe_err(e, simfs, spec),
         }
     }));
+    crate::seams::set_sim_clock(false);
     let out = match r {
         Ok(o) => o,
         Err(_) => {
@@ -461,6 +465,7 @@ pub fn build_and_run(spec: &JobSpec, fs: &dyn grass_compiler::Fs, logger: &dyn L
 /// Run on the current thread.
 pub fn run_job(spec: &JobSpec) -> JobResult {
     let before = stdio_captured_len();
+    let clock_before = crate::seams::clock_reads();
     MARKS.with(|m| m.borrow_mut().clear());
     let logger = SimLogger::default();
     let simfs = SimFs::new(&spec.files, &spec.extra_dirs, &spec.cwd, spec.canon.clone(), spec.faults.clone(), crate::prng::mix_str(7, &spec.label));
@@ -490,6 +495,7 @@ pub fn run_job(spec: &JobSpec) -> JobResult {
         fired: inner.fired,
         stdio_leak,
         delivered: inner.delivered.into_iter().collect(),
+        clock_reads: crate::seams::clock_reads() - clock_before,
     }
 }
 
